@@ -102,7 +102,7 @@ def obligations(tier, seed):
     else:
         plans = [(SEQ_EVENTS, 3), (core, 4)]
     # a session that negotiates hold time 0 (peer proposes 0): no timer may end it (RFC 4271 4.2 / 8.2.2)
-    k0 = 4 if quick else 5
+    k0 = 4
     a0 = ['tcp_ok', 'open_ok', 'ka', 'timer', 'upd', 'rr']
     out.append(ob('C01/seq/hold0/k=%d' % k0, 'ob_seq', {'alphabet': a0, 'k': k0, 'first': 0, 'second': 1,
                                                         'vals': {'open_ok': [0, 0x0A000002, 0]}},
